@@ -42,6 +42,11 @@ def response_for(method, kwargs, alloc):
         return pad([0, 32, 0x0E, 1, 1, 1, 1, 0x20] + [0] * 26)
     if method == "persistentreservein":
         return pad([0, 0, 0, 7, 0, 0, 0, 0])
+    if method == "reportluns":
+        # a target with 16 logical units: LUN LIST LENGTH says 128, the data is cut at the allocation length (SPC: the
+        # length field is not adjusted to reflect truncation) — one command, decoded as far as it goes
+        full = [0, 0, 0, 128, 0, 0, 0, 0] + [x for i in range(16) for x in (0, i, 0, 0, 0, 0, 0, 0)]
+        return bytearray(full[: (alloc or 96)]) if (alloc or 96) < len(full) else pad(full)
     return None
 
 
